@@ -127,6 +127,18 @@ func loadContracts(L *Loaded) *ContractDB {
 			db.parseFile(name, f)
 		}
 	}
+	// a function is checked under every property one of its own clauses is tagged with
+	for _, fc := range db.Order {
+		for _, cs := range [][]*Clause{fc.Ensures, fc.Requires} {
+			for _, c := range cs {
+				for _, p := range c.Props {
+					if !hasProp(fc.Props, p) {
+						fc.Props = append(fc.Props, p)
+					}
+				}
+			}
+		}
+	}
 	db.inheritIfaces()
 	db.autoCtors()
 	return db
